@@ -171,6 +171,9 @@ pub enum Op {
     /// walk the factory's pair list with this page size (C19)
     Walk {
         limit: Option<u32>,
+        /// pass the continuation cursor with its two assets in the reversed order
+        #[serde(default)]
+        flip: bool,
     },
     /// factory registry vs pairs vs model (C16, C17)
     AuditRegistry {},
